@@ -72,3 +72,32 @@ def fresh_timeout_per_read(rel, qual, param):
             fails.append('the read at %s:%d is not wrapped in tokio::time::timeout(%s, ..): its time budget is not renewed per read' % (rel, line, param))
     line = sf.src.count('\n', 0, it.sig_start) + 1
     return {'status': 'fail' if fails else 'ok', 'fails': fails, 'src': '%s:%d' % (rel, line)}
+
+
+def field_kept_for_connection(rel, field, ctor, uses):
+    """The field is initialised once (`<field>: <ctor>` in a struct literal), never assigned again (`self.<field> =`,
+    `mem::take/replace`, `.clear()`), and every call listed in `uses` receives `&mut self.<field>` (or a parameter that
+    was given it): the atom cache lives as long as the connection.  Neither verifier models the connection object
+    across awaits; this is a syntactic obligation on the real source."""
+    path = os.path.join(os.environ.get('VERIF_REPO', '/repo'), rel)
+    try:
+        src = open(path).read()
+    except OSError as e:
+        return {'status': 'undecided', 'reason': str(e)}
+    msk = mask(src)
+    fails = []
+    inits = re.findall(r'\b%s\s*:\s*%s' % (re.escape(field), re.escape(ctor)), msk)
+    if len(inits) != 1:
+        fails.append('%s is initialised %d times (expected once, in the constructor)' % (field, len(inits)))
+    if re.search(r'self\s*\.\s*%s\s*=[^=]' % re.escape(field), msk):
+        fails.append('self.%s is assigned after construction' % field)
+    if re.search(r'(take|replace)\s*\(\s*&mut\s+self\s*\.\s*%s' % re.escape(field), msk) or re.search(r'self\s*\.\s*%s\s*\.\s*clear\s*\(' % re.escape(field), msk):
+        fails.append('self.%s is reset (take/replace/clear)' % field)
+    for u in uses:
+        calls = list(re.finditer(r'%s\s*\(([^;]*?)\)\s*\??\s*;' % re.escape(u), msk, re.S))
+        if not calls:
+            return {'status': 'undecided', 'reason': 'no call of %s found in %s: the receive path changed shape' % (u, rel)}
+        for c in calls:
+            if not re.search(r'(&mut\s+self\s*\.\s*%s|\b%s\b)' % (re.escape(field), re.escape(field)), c.group(1)):
+                fails.append('a call of %s does not receive the connection\'s %s' % (u, field))
+    return {'status': 'fail' if fails else 'ok', 'fails': fails, 'src': '%s:1' % rel}
